@@ -144,6 +144,13 @@ Theorem C09_vqs_wf_step_inv : forall s o,
 Proof. exact vqs_wf_step_inv. Qed.
 Print Assumptions C09_vqs_wf_step_inv.
 
+Theorem C09_vqs_wf_step_Inv : forall s o, Inv s -> o <> OGenesis -> vqs_wf (snd (step s o)).
+Proof.
+  intros s o I Hg. apply vqs_wf_step; [apply ids_seq_ids_ok, (inv_ids s I)|
+    apply auctions_wf_scheds, (inv_auctions s I)|apply (inv_vqs s I)|exact Hg].
+Qed.
+Print Assumptions C09_vqs_wf_step_Inv.
+
 (* at the granularity of one auction inside a block *)
 Theorem C09_vqs_wf_process : forall t orc s a s',
   ids_ok s -> vqs_wf s -> find_auction s (a_id a) = Some a -> scheds_wf a ->
